@@ -58,6 +58,15 @@ OvershootOK(cap, body, framing, last, n) == (cap # None /\ n >= 1) => body <= ca
    "run": what one client session iterated until it ended
        c = [t, n (script length), origin (0 = from init, i = resumed from the token minted after batch i)]
        o = [ids, ended ("finished" | "error")]                                                            *)
+(* Concretisation classes of one abstract configuration (they do not change the turn arithmetic, so they are not
+   fields of cfg; the driver rotates through them and every observation is judged by the same clauses):
+     state shape of the method   cursor-only state | immutable call state + cursor | union-typed state (either member,
+                                 tagged in the cursor token, call-state type resolved per member) | header-declaring
+                                 (the header stream of /init is framing; a resumed session never sees it again)
+     batch shape                 1 row | 0 rows | many rows, with application metadata (a zero-row data batch is data,
+                                 not a sentinel: only STATE_KEY makes a sentinel)
+     script                      includes the empty script (a producer that finishes in its first tick)
+     deployment                  URL prefix "" | "/vgi";  codec negotiated on Accept-Encoding | X-VGI-Accept-Encoding   *)
 Cases == {}
 Expected(c) == 0
 
